@@ -287,6 +287,9 @@ def gen_workload(seed):
         'entry': rng.choice(['api', 'api', 'run_file', 'cli']),
         'subdir': rng.random() < 0.3,
     }
+    # the output file given as a bare file name, relative to the working
+    # directory (what `panqec run -o results.json.gz` in a job script does)
+    knobs['relative_out'] = (not knobs['subdir']) and rng.random() < 0.15
     n_inc = 2 if tiny else rng.choice([2, 3, 3, 4, 5])
     spec = gen_spec(rng)
     if tiny:
@@ -510,7 +513,7 @@ class Exec:
             return
         if entry == 'api':
             b = read_input_dict(
-                spec, self.out, verbose=False,
+                spec, self.out_arg, verbose=False,
                 save_frequency=self.knobs['save_frequency'],
                 update_frequency=self.knobs['update_frequency'])
             inc.batch = b
@@ -518,7 +521,7 @@ class Exec:
             b.run(n, progress=seams.sim_progress)
         elif entry == 'run_file':
             self.sb.write_bytes(self.inp, canon(spec).encode())
-            run_file(self.inp, self.out, n, progress=seams.sim_progress,
+            run_file(self.inp, self.out_arg, n, progress=seams.sim_progress,
                      log_file=self.logf if self.knobs['subdir'] else None)
         elif entry == 'cli':
             import panqec.cli as pcli
@@ -528,7 +531,7 @@ class Exec:
             pcli.tqdm = seams.sim_progress
             try:
                 res = CliRunner().invoke(
-                    pcli.cli, ['run', '-i', self.inp, '-o', self.out,
+                    pcli.cli, ['run', '-i', self.inp, '-o', self.out_arg,
                                '-t', str(n)], catch_exceptions=False)
             finally:
                 pcli.tqdm = old
@@ -546,6 +549,13 @@ class Exec:
         self.out = self.sb.path(sub, 'out' + self.knobs['ext']) if sub \
             else self.sb.path('out' + self.knobs['ext'])
         self.inp = self.sb.path('input.json')
+        self.out_arg = self.out
+        self._cwd = None
+        if self.knobs.get('relative_out'):
+            self._cwd = os.getcwd()
+            os.chdir(self.sb.root)
+            self.out_arg = 'out' + self.knobs['ext']
+            sim.probe('output_file_relative_to_cwd')
         self.logf = self.sb.path('progress.txt')
         dt_rng = stream(sim.seed, 'trial_dt')
         self.ledger = seams.Ledger(
@@ -586,6 +596,8 @@ class Exec:
             seams.uninstall_clock()
             seams.uninstall_entropy()
             kernel.set_current(None)
+            if self._cwd is not None:
+                os.chdir(self._cwd)
             if self.root is None:
                 self.sb.destroy()
             else:
